@@ -103,6 +103,36 @@ def fam_batch(w: World) -> None:
                                      'method.step', 'method.exit')]
 
 
+def fam_duplicates(w: World) -> None:
+    """A batch in which the same notification (equal method and parameters, no id) occurs two or three times among
+    other elements: every occurrence is an element of its own and runs its method once; the responses of the calls stay
+    in request order.  Judged against the reference dispatcher (reply and multiset of executions)."""
+    ch = w.ch
+    n_other = ch.draw(3, 'dup.others')
+    ids = ch.shuffle(S.ELEMENT_IDS, 'ids')
+    els = []
+    for k in range(n_other):
+        el, kind = S.gen_element(ch, f't{k}', ids[k], ch.flag(1, 4, 'el.notification'), True)
+        els.append(el)
+    twin = {'jsonrpc': '2.0', 'method': ch.choice(['none', 'echo', 'slow', 'fail_exc'], 'dup.method'), 'params': ['dup']}
+    if twin['method'] == 'fail_exc':
+        twin['params'] = ['dup', 'value']
+    copies = 2 + ch.draw(2, 'dup.copies')
+    for _ in range(copies):
+        els.insert(ch.draw(len(els) + 1, 'dup.pos'), json.loads(json.dumps(twin)))
+    text = json.dumps(els)
+    cfg = S.draw_config(ch, len(els), force_async=True)
+    cfg['max_batch_size'] = None
+    cfg['concurrent_batch'] = not ch.flag(1, 3, 'sequential')
+    S.plan_pauses(w, cfg, n_other)
+    w.plan[('method', 'dup')] = [ch.choice(gen.PAUSES, 'pause.d') for _ in range(ch.draw(3, 'pause.method'))]
+    w.scenario = {'cfg': cfg, 'text': text, 'copies': copies}
+    w.nontrivial = True
+    sut = S.ServerUnderTest(w, cfg, extra_kwargs={'concurrent_batch': cfg['concurrent_batch']})
+    ctx = {'concurrent_batch': cfg['concurrent_batch'], 'n': len(els), 'copies': copies, 'family': 'duplicates'}
+    S.judge_delivery(w, PROP, sut, text, ('wellformed', 'reference'), ctx)
+
+
 def evidence_extra(total: Dict[str, Any]) -> Dict[str, Any]:
     # interleavings of 2 elements with s atomic steps each = C(2s, s); reported for orientation only
     return {'interleavings_possible_examples': {f'2 elements x {s} steps': comb(2 * s, s) for s in (2, 3, 5)},
@@ -119,10 +149,10 @@ def systematic(tier: str):
                     yield {'n': [n], 'sequential': [seq], 'sched.policy': [pol]}
 
 
-FAMILIES = {'async.batch': fam_batch}
+FAMILIES = {'async.batch': fam_batch, 'async.duplicates': fam_duplicates}
 SYSTEMATIC = {'async.batch': systematic}
 PLAN = {
-    'quick': {'async.batch': 84000},
-    'thorough': {'async.batch': 120000},
+    'quick': {'async.batch': 84000, 'async.duplicates': 8000},
+    'thorough': {'async.batch': 120000, 'async.duplicates': 24000},
 }
 THOROUGH_BUDGET_S = 600
